@@ -70,6 +70,7 @@ func cmdRun(args []string) int {
 	verbose := fs.Bool("v", false, "progress on stderr")
 	timeout := fs.Int("timeout", 0, "wall clock limit in seconds per harness (0 = none)")
 	stopOnViol := fs.Bool("stop-on-violation", false, "stop a harness at its first violation")
+	pathSec := fs.Int("path-seconds", 300, "wall clock limit per path in seconds (0 = none); an exceeded path is inconclusive")
 	boundViol := fs.Bool("bound-is-violation", false, "record budget exhaustion as a candidate violation (termination properties)")
 	pkgName := fs.String("pkgname", "", "package clause for overlaid files containing 'package VERIFPKG'")
 	fs.Parse(args)
@@ -147,7 +148,7 @@ func cmdRun(args []string) int {
 		return finish(2)
 	}
 	opt := interp.Options{MaxSteps: *steps, MaxDepth: *depth, MaxPaths: *maxPaths, Workers: *workers,
-		SolverMS: *solverMS, Samples: *samples, SolverLog: *smtLog, Verbose: *verbose, StopOnViol: *stopOnViol, BoundIsViolation: *boundViol}
+		SolverMS: *solverMS, Samples: *samples, SolverLog: *smtLog, Verbose: *verbose, StopOnViol: *stopOnViol, BoundIsViolation: *boundViol, PathSeconds: *pathSec}
 	for _, o := range strings.Split(*oracle, ",") {
 		switch o {
 		case "maporder":
